@@ -116,6 +116,38 @@ func directC06extra(g *G, rep *Report) {
 			rep.DistinctNT++
 		}
 	}
+	// 1c. a failing expression inside a quoted attribute (data="…", value="…", {css e, x}): its nodes come from a nested
+	// parser; when the attribute text is longer than the file (invalid UTF-8 unquotes to three-byte U+FFFD, or a
+	// long literal in a short file) the error handler must still find a position inside the file
+	for _, lit := range []string{"'a'", "'" + strings.Repeat("\xff", 100) + "'", "'" + strings.Repeat("\xff", 1000) + "'", "'" + strings.Repeat("long ", 300) + "'", "$s", "[1, 2]", "['k': 'v']"} {
+		for _, wrap := range []string{"{call .u data=\"%s - 1\"/}", "{call .u}{param k value=\"%s - 1\"/}{/call}", "{css %s - 1, x}", "{call .u data=\"%s\"/}", "{call .u data=\"[%s][5].a\"/}"} {
+			src := "{namespace q}\n/** @param? s */\n{template .t}\n{if false}{$s}{/if}" + strings.Replace(wrap, "%s", lit, 1) + "\n{/template}\n/** @param? k */\n{template .u}\n{$k}x\n{/template}\n"
+			var class string
+			c := guarded(5*time.Second, func() {
+				tofu, err := soy.NewBundle().AddTemplateString("q.soy", src).CompileToTofu()
+				if err != nil {
+					class = "COMPILE-ERR"
+					return
+				}
+				var sb strings.Builder
+				if err := tofu.Render(&sb, "q.t", data.Map{"s": data.String("str")}); err != nil {
+					class = "ERR"
+				} else {
+					class = "OK"
+				}
+			})
+			if c != "" {
+				class = c
+			}
+			rep.Evaluations++
+			rep.Distribution["quoted-attr:"+class]++
+			if class == "PANIC" || class == "HANG" {
+				viol("quoted-attr-"+class+":"+wrap, "rendering a template with a failing quoted attribute expression did not return normally: "+class, src, class)
+			} else if class != "COMPILE-ERR" {
+				rep.DistinctNT++
+			}
+		}
+	}
 	// 2. range() with hostile arguments
 	argv := []string{"0", "1", "3", "-1", "-3", "0.5", "-0.5", "0.0", "2.5", "1e300", "'2'", "null", "[1]", "true", "$i", "$f", "$h", "$z", "$s", "$n", "$l"}
 	// the ends of the integer range: index += step must not wrap around (short ranges only: a range of 2^62
